@@ -106,6 +106,9 @@ func main() {
 	case "C07":
 		res.Rule = "rounds of 1..4 concurrent subscriptions with lengths {0,1,31,32,33,257,1000}, fast/slow consumers, every third round one consumer that does not read (from the start or after 5 values) while the others and 20 unary calls must complete, seed-driven delays at every hook; per subscription the hook trace is replayed through the model and compared with what the consumer received; wire order checked on proxy frames; distinct = round; every round non-trivial"
 		err = stream.RunHealthy(d, res, *seed, thorough)
+		if err == nil {
+			err = stream.RichElements(res, *seed, n(300, 3000))
+		}
 	case "C08":
 		res.Rule = "termination causes {handler close, context cancel, connection loss (fin/rst/blackhole; armed on the channel-id response at 5 byte positions, or cut later), client close, cancel racing loss, loss then close, handler close racing cancel} x instants {at start, after the first value, mid-stream, with values buffered behind a stalled consumer} x {reconnecting, no-reconnect} x 1..3 subscriptions; per subscription the hook trace is replayed through the model; every channel must close; distinct = (cause, instant, reconnect, fault, k, n); every case non-trivial"
 		err = stream.RunTermination(d, res, *seed, thorough)
